@@ -1,4 +1,5 @@
 import WhVerif.Model.C01
+import WhVerif.Lemmas.C01Gray
 /-!
 # C01: the incremental cost table of `PedigreeColumnCostComputer`
 
@@ -8,6 +9,9 @@ import WhVerif.Model.C01
 * `flipTable` mirrors `update_partitioning(bit_to_flip)`; `flip_eq_set`: flipping bit `i` of a table produced by
   `set_partitioning(bs)` gives exactly the table of `set_partitioning(bs with bit i negated)`.  No range or
   allele side condition is needed and the truncated `Nat` subtraction never truncates (`flip_no_underflow`).
+
+* `walk_in_sync`: along the Gray-code loop of `compute_column` (first `set_partitioning`, then
+  `update_partitioning(changed bit)`), the table always equals `set_partitioning(current code)`.
 
 Core Lean only.
 -/
@@ -96,6 +100,26 @@ theorem TabWF_of_range (I : Inst) (c t : Nat)
     simp [hf] at he
     have := hal r hr e (List.mem_of_find?_eq_some hf)
     omega
+
+/-- decidable form of the side condition (only haplotypes 0 and 1 matter) -/
+theorem TabWF_of_check (I : Inst) (c t : Nat)
+    (h : ∀ r ∈ I.activeAt c, (h2pOf (h2pMap I t) (I.read r).ind 0 < I.npart ∧
+        h2pOf (h2pMap I t) (I.read r).ind 1 < I.npart) ∧ ∀ e ∈ (I.read r).entries, e.2.1 ≤ 1) : TabWF I c t := by
+  apply TabWF_of_range
+  · intro r hr hh
+    have := (h r hr).1
+    unfold h2pOf at this ⊢
+    split <;> simp_all
+    split <;> simp_all
+  · intro r hr; exact (h r hr).2
+
+/-- non-vacuity: a trio (father 0, mother 1, child 2), one read per individual, transmission value 2 -/
+def exTrio : Inst :=
+  { ncols := 1, nind := 3, trios := [(0, 1, 2)], geno := [], recomb := [0],
+    reads := [⟨0, 0, 0, [(0, 1, 5)]⟩, ⟨1, 0, 0, [(0, 0, 7)]⟩, ⟨2, 0, 0, [(0, 1, 3)]⟩] }
+
+example : TabWF exTrio 0 2 := by
+  apply TabWF_of_check; decide
 
 theorem tabStep_length (I : Inst) (c : Nat) (hm) (tab : List (Nat × Nat)) (rb : Nat × Bool) :
     (tabStep I c hm tab rb).length = tab.length := by
@@ -264,5 +288,55 @@ theorem flip_no_underflow (I : Inst) (c t : Nat) (bs : List Bool) (i : Nat)
     clear_value pOld
     simp [List.getD_eq_getElem?_getD, List.getElem?_eq_getElem hp']
   rw [this]; unfold addW; split <;> simp
+
+/-! ## (c) the Gray-code walk of `compute_column` keeps the table in sync -/
+
+theorem bitsOf_flip (k x b : Nat) (hb : b < k) :
+    bitsOf k (x ^^^ (1 <<< b)) = (bitsOf k x).set b (!(bitsOf k x).getD b false) := by
+  apply List.ext_getElem
+  · simp [bitsOf]
+  · intro i h1 h2
+    have hi : i < k := by simpa [bitsOf] using h1
+    simp only [bitsOf, List.getElem_map, List.getElem_range, List.getElem_set, Nat.testBit_xor,
+      one_shiftLeft_testBit, List.getD_eq_getElem?_getD, List.getElem?_map, List.getElem?_range hb]
+    by_cases h : b = i
+    · subst h; simp
+    · simp [h]
+
+/-- one iteration of the bipartition loop of `compute_column` as far as one cost computer is concerned:
+state = (member `partitioning` as bits, `cost_partition`).  `changed ≥ 0`: `update_partitioning(changed)`;
+otherwise `set_partitioning(code)` — which, as coded (`partitioning = partitioning;` assigns the parameter to
+itself), does NOT store `code` in the member. -/
+def walkStep (I : Inst) (c t n : Nat) (st : List Bool × List (Nat × Nat)) (x : Nat × Int) :
+    List Bool × List (Nat × Nat) :=
+  if 0 ≤ x.2 then (st.1.set x.2.toNat (!(st.1.getD x.2.toNat false)), flipTable I c t st.1 st.2 x.2.toNat)
+  else (st.1, costTable I c t (bitsOf n x.1))
+
+/-- state after the constructor: member `partitioning = 0`, table all zero -/
+def walkInit (I : Inst) (n : Nat) : List Bool × List (Nat × Nat) := (bitsOf n 0, List.replicate I.npart (0, 0))
+
+/-- After processing the first `k+1` Gray codes, the member `partitioning` is the current code and the
+incrementally maintained table is exactly `set_partitioning(current code)`.  (The self-assignment quirk of
+`set_partitioning` is harmless only because the first code is 0 = the constructor's value.) -/
+theorem walk_in_sync (I : Inst) (c t k : Nat) (hk : k < 2 ^ (I.activeAt c).length) :
+    ((grayList (I.activeAt c).length).take (k + 1)).foldl (walkStep I c t (I.activeAt c).length)
+        (walkInit I (I.activeAt c).length) =
+      (bitsOf (I.activeAt c).length (gray k), costTable I c t (bitsOf (I.activeAt c).length (gray k))) := by
+  generalize hn : (I.activeAt c).length = n at *
+  have hpos := Nat.two_pow_pos n
+  induction k with
+  | zero =>
+    obtain ⟨m, hm⟩ : ∃ m, 2 ^ n = m + 1 := ⟨2 ^ n - 1, by omega⟩
+    rw [grayList_eq, hm, List.range_succ_eq_map]
+    simp [walkStep, walkInit, gray_zero]
+  | succ k ih =>
+    have hlen : k + 1 < (grayList n).length := by simpa [grayList_eq] using hk
+    rw [List.take_succ_eq_append_getElem hlen, List.foldl_append, ih (by omega)]
+    have hx : (grayList n)[k + 1] = (gray (k + 1), ((tones k : Nat) : Int)) := by
+      simp [grayList_eq]
+    have ht := tones_lt n k hk
+    simp only [List.foldl_cons, List.foldl_nil, hx, walkStep, Int.toNat_natCast]
+    rw [if_pos (by omega), gray_succ, bitsOf_flip n _ _ ht]
+    rw [flip_eq_set I c t _ _ (by simpa [bitsOf] using ht) (by simp [bitsOf, hn])]
 
 end WhVerif.C01
